@@ -18,7 +18,21 @@ import (
 	"gosx/sym"
 )
 
-const harnessDir = "/verif/harness"
+// The defaults are the registered configuration; the environment overrides
+// exist only so that several scratch copies of the repository (seeded changes)
+// can be checked side by side.
+var (
+	harnessDir = envOr("GOSX_HARNESS", "/verif/harness")
+	repoDir    = envOr("GOSX_REPO", "/repo")
+	outDir     = envOr("GOSX_OUT", "/verif")
+)
+
+func envOr(k, def string) string {
+	if v := os.Getenv(k); v != "" {
+		return v
+	}
+	return def
+}
 const modulePath = "github.com/vmware/go-ipfix"
 
 func main() {
@@ -54,6 +68,7 @@ func defaultConfig() sym.Config {
 		MaxDecisions:    4000,
 		Workers:         16,
 		SolverTimeoutMs: 30000,
+		MaxWall:         40 * time.Minute,
 		ModulePath:      modulePath,
 		Params:          map[string]int64{},
 	}
